@@ -1061,6 +1061,15 @@ class AsyncWriter(threading.Thread, IndexWriter):
     def delete_by_term(self, *args, **kwargs):
         self._record("delete_by_term", args, kwargs)
 
+    def delete_by_query(self, q, searcher=None):
+        # Like delete_by_term, the query must be run when the buffered calls
+        # are replayed: the inherited implementation translated it into
+        # document numbers of the index as it is *now*, which mean other
+        # documents (or none) once the current lock holder has committed
+        if self.writer:
+            return self.writer.delete_by_query(q, searcher=searcher)
+        self.events.append(("delete_by_query", (q,), {}))
+
     def commit(self, *args, **kwargs):
         if self.writer:
             self.writer.commit(*args, **kwargs)
